@@ -56,6 +56,29 @@ theorem pad256_eq_pad (b : Bytes) (h : b.length ≤ 256) : Impl.pad256 b = Spec.
     congr 2
     omega
 
+/-- `pad256` is the 2048-bit big-endian form of the number for *every* byte string whose value fits
+2048 bits — shorter than 256 bytes (left-padded), exactly 256, or longer with leading zero bytes
+(the last 256 bytes are kept). -/
+theorem pad256_eq_pad' (b : Bytes) (h : beNat b < 256 ^ 256) : Impl.pad256 b = Spec.pad (beNat b) := by
+  by_cases hle : b.length ≤ 256
+  · exact pad256_eq_pad b hle
+  · unfold Impl.pad256 Spec.pad
+    rw [if_pos (by omega)]
+    have h1 := Bin.leN_fromLE b.reverse
+    rw [List.length_reverse] at h1
+    have hlen : b.length = 256 + (b.length - 256) := by omega
+    have h2 : Bin.leN b.length (beNat b) = Bin.leN 256 (beNat b) ++ List.replicate (b.length - 256) 0 := by
+      conv => lhs; rw [hlen]
+      exact leN_extend 256 _ _ h
+    have hb : b = List.replicate (b.length - 256) 0 ++ beBytes 256 (beNat b) := by
+      have : b.reverse = Bin.leN 256 (beNat b) ++ List.replicate (b.length - 256) 0 := by
+        rw [← h2]; exact h1.symm
+      have h3 := congrArg List.reverse this
+      rw [List.reverse_reverse, List.reverse_append, List.reverse_replicate] at h3
+      exact h3
+    conv => lhs; rw [hb]
+    rw [List.drop_left' (by simp)]
+
 theorem pad_beNat (b : Bytes) (h : b.length = 256) : Spec.pad (beNat b) = b := by
   unfold Spec.pad
   rw [← h, beBytes_beNat]
@@ -92,7 +115,7 @@ theorem secondary_eq_PH2 (S : SrpPrims) (pw s1 s2 : Bytes) :
     iters_eq.1, iters_eq.2]
 
 theorem impl_eq_spec (S : SrpPrims) (hS : LawfulSrp S) (isPrime : Int → Bool)
-    (pw srpB random : Bytes) (i : Input) (hp : i.p.length = 256) (hb : srpB.length ≤ 256)
+    (pw srpB random : Bytes) (i : Input) (hp : i.p.length = 256) (hb : beNat srpB < 256 ^ 256)
     (hgrp : C13.checkDH isPrime i.g ((beNat i.p : Nat) : Int) = .ok) :
     Impl.srpHash S isPrime pw srpB random i =
       .ok (Spec.answer S (beNat i.p) i.g.toNat (beNat random) (beNat srpB) pw i.salt1 i.salt2) := by
@@ -106,7 +129,7 @@ theorem impl_eq_spec (S : SrpPrims) (hS : LawfulSrp S) (isPrime : Int → Bool)
   rw [pad256FromBig_of_lt _ (hlt _)]
   simp only
   unfold Spec.answer Spec.M1of Spec.sA Spec.gA Spec.u Spec.v Spec.x Spec.k Spec.H
-  rw [pad_beNat i.p hp, pad256_eq_pad srpB hb, secondary_eq_PH2]
+  rw [pad_beNat i.p hp, pad256_eq_pad' srpB hb, secondary_eq_PH2]
   simp only [Impl.hash, Impl.xor32, Spec.pad, List.flatten_cons, List.flatten_nil, List.append_nil,
     List.append_assoc]
   have hkv : (beNat (S.sha256 (i.p ++ beBytes 256 i.g.toNat)) * (i.g.toNat ^ beNat (Spec.PH2 S pw i.salt1 i.salt2) % beNat i.p)) % beNat i.p < beNat i.p :=
